@@ -4,6 +4,7 @@ import (
 	"context"
 	"fmt"
 	"io"
+	"strings"
 	"sync"
 	"sync/atomic"
 	"time"
@@ -465,12 +466,22 @@ func c09Run(r *fw.R, d c09Desc) {
 		}
 	}
 	r.Key("%s/%s/%s%s/%s/%s", d.Role, d.Adversary, d.Frame, stallClass, d.State, d.Closer)
-	timing := func(sig, msg string) {
-		if over := time.Duration(canaryMax.Load()); over > c09CanaryLimit {
+	// A timing verdict is withheld (inconclusive) when the scheduler canary overslept in this window - but only
+	// if that oversleep could account for the excess over the bound: waits that ran into a watchdog of tens of
+	// seconds ("never") exceed their bound by many seconds, which a hiccup of a fraction of a second does not explain.
+	timingX := func(sig, msg string, excess time.Duration) {
+		if over := time.Duration(canaryMax.Load()); over > c09CanaryLimit && 3*over > excess {
 			r.Inconclusivef("%s: %s - but the scheduler canary overslept by %v in this window", what, msg, over)
 			return
 		}
 		r.Violate(sig, what+": "+msg, "")
+	}
+	timing := func(sig, msg string) {
+		if strings.Contains(sig, "-never-") {
+			timingX(sig, msg, 15*time.Second)
+			return
+		}
+		timingX(sig, msg, 0)
 	}
 
 	// ---- the closer
@@ -502,10 +513,10 @@ func c09Run(r *fw.R, d c09Desc) {
 		lag := time.Since(t00) - tc
 		r.Max("closeread_cancel_lag_ms", lag.Milliseconds())
 		if lag > c09UnblockBound {
-			timing("C09/closeread-context-cancelled-late/"+d.Adversary, fmt.Sprintf("the CloseRead context was cancelled %v after the library closed the transport", lag.Round(time.Millisecond)))
+			timingX("C09/closeread-context-cancelled-late/"+d.Adversary, fmt.Sprintf("the CloseRead context was cancelled %v after the library closed the transport", lag.Round(time.Millisecond)), lag-c09UnblockBound)
 		}
 		if el > c09CloseBound {
-			timing("C09/closeread-close-took-too-long/"+d.Adversary, fmt.Sprintf("closing after the data message took %v", el.Round(time.Millisecond)))
+			timingX("C09/closeread-close-took-too-long/"+d.Adversary, fmt.Sprintf("closing after the data message took %v", el.Round(time.Millisecond)), el-c09CloseBound)
 		}
 		return
 	}
@@ -538,7 +549,7 @@ func c09Run(r *fw.R, d c09Desc) {
 		r.Max("closenow_ms", el.Milliseconds())
 	}
 	if el > bound {
-		timing("C09/"+d.Closer+"-too-slow/"+d.Adversary+"/"+d.State, fmt.Sprintf("%s took %v, bound %v", d.Closer, el.Round(time.Millisecond), bound))
+		timingX("C09/"+d.Closer+"-too-slow/"+d.Adversary+"/"+d.State, fmt.Sprintf("%s took %v, bound %v", d.Closer, el.Round(time.Millisecond), bound), el-bound)
 	}
 	tRet := time.Now()
 	if lateWriter != nil {
@@ -566,7 +577,7 @@ func c09Run(r *fw.R, d c09Desc) {
 				return
 			}
 			if lag := time.Since(tRet); lag > c09UnblockBound {
-				timing("C09/blocked-call-released-late/"+b.what+"/"+d.State, fmt.Sprintf("a blocked %s call returned %v after %s had returned", b.what, lag.Round(time.Millisecond), d.Closer))
+				timingX("C09/blocked-call-released-late/"+b.what+"/"+d.State, fmt.Sprintf("a blocked %s call returned %v after %s had returned", b.what, lag.Round(time.Millisecond), d.Closer), lag-c09UnblockBound)
 			}
 		}
 	}
